@@ -66,9 +66,11 @@ class Ctx:
         self.probe_unknown = 0
 
     def fresh_name(self, base):
+        """names of bound / auxiliary variables: the '%' prefix keeps them apart from the contracts' input symbols
+        (a Lambda / quantifier over a variable named like an input would capture it)"""
         n = self.fresh_counter.get(base, 0)
         self.fresh_counter[base] = n + 1
-        return f"{base}!{n}" if n else base
+        return f"%{base}!{n}"
 
     def add(self, term, label=None):
         term = z3.simplify(term) if not isinstance(term, bool) else z3.BoolVal(term)
